@@ -118,6 +118,15 @@ def check_z3(fs, timeout_ms):
     reason = ''
     if r == z3.sat:
         model = s.model()
+        # z3's sequence solver occasionally answers sat with a model that does not satisfy the assertions
+        # (seen on concat/ite equalities; cvc5 proves the same query unsat).  A sat is only believed when the model
+        # checks out; otherwise the answer is downgraded to unknown and the second back end decides.
+        try:
+            for f in fs:
+                if z3.is_false(model.eval(f, model_completion=True)):
+                    return 'unknown', None, time.time() - t0, 'z3 model does not satisfy the query (invalid sat)', s
+        except z3.Z3Exception:
+            pass
     elif r == z3.unknown:
         reason = s.reason_unknown()
     return str(r), model, dt, reason, s
@@ -126,7 +135,8 @@ def check_z3(fs, timeout_ms):
 def check_cvc5(solver, timeout_s):
     """same query as SMT-LIB2 text to the cvc5 CLI"""
     txt = solver.to_smt2()
-    txt = '(set-logic ALL)\n' + txt
+    # z3's simplifier spells in-range / out-of-range element access seq.nth_i / seq.nth_u; both are seq.nth
+    txt = '(set-logic ALL)\n' + txt.replace('seq.nth_i', 'seq.nth').replace('seq.nth_u', 'seq.nth')
     with tempfile.NamedTemporaryFile('w', suffix='.smt2', delete=False, dir=os.environ.get('PYVC_TMP', None)) as f:
         f.write(txt)
         path = f.name
